@@ -177,6 +177,15 @@ func runC05(r *vhlib.Run, which string) {
 		}
 		c05History(r, m, which, cfg, randXWOps(rng, 1+rng.Intn(40), maxw), "random")
 	}
+	// stored chunks whose compressed size is 4096k + {0..4}: the chunk reader's
+	// last buffered read is then 0..4 bytes long
+	for _, raw := range []int{4085, 4086, 4087, 4088, 4089, 4090, 8183, 8184} {
+		if r.Quick() && raw%2 == 0 && raw != 4088 {
+			continue
+		}
+		d := vhlib.RandBytes(rng, raw*2+17)
+		c05History(r, m, which, xwCfg{Level: -1, ChunkSize: int64(raw), Index: 3}, []xwOp{{Kind: 'w', Data: d}, {Kind: 'c'}}, "stored-4096k")
+	}
 	// a few large ones (default chunk size crossed)
 	if !r.Quick() {
 		for i := 0; i < 3; i++ {
